@@ -4,7 +4,6 @@ from .ops_c02 import OPS
 
 PROP, BIN, RUNMOD, RUNFN = "C02", "c02", "RunC02", "run_C02"
 MODES = [True, False]
-LEVEL = "other"   # until the Model = Spec theorems of this property are merged (placeholder theorem only)
 
 
 def isqrt(x):
